@@ -219,9 +219,12 @@ class Field:
         self._Set_dofsValues(np.asarray(dofsValues, dtype=float).ravel())
 
         self.__is_currently_evaluated = True
-        values_e_pg = function(self)
+        try:
+            values_e_pg = function(self)
+        finally:
+            # leave the evaluated mode even if the function raises
+            self.__is_currently_evaluated = False
         assert isinstance(values_e_pg, FeArray), "must be a FeArray"
-        self.__is_currently_evaluated = False
 
         if returnMeanValues:
             return values_e_pg.mean(1)
